@@ -52,6 +52,8 @@ def specs_for(rng, thorough):
     out.append(dict(family="billing", profile="billing", meter_seed=rng.randrange(1 << 20), kind=rng.choice(kinds[:3])))
     out.append(dict(family="hourly", meter_seed=rng.randrange(1 << 10), seed=0))
     out.append(dict(family="hourly", meter_seed=rng.randrange(1 << 10), seed=rng.choice([1, 42, 2 ** 31])))
+    # an hourly meter with gaps next to both ends of the series and partial first / last days
+    out.append(dict(family="hourly", meter_seed=rng.randrange(1 << 10), seed=5, edge_gaps=True))
     # the CalTRACK hourly family (fresh processes differ in their string-hash seed: nothing may depend on set / dict-of-str iteration order)
     out.append(dict(family="caltrack", meter_seed=rng.randrange(1 << 10)))
     # the non-default iterative path (adaptive sample weights): several ElasticNet solves per fit
